@@ -22,7 +22,13 @@ Line protocol for the C17 settings model (stateful; values are interned numbers)
   rename NAME                  -> NAME' T|F
   read [NAME=RAW,...]          -> ok|reject inv=[...]   (A := result)
   modified [K=V | K=@D:V ,...] -> ok|reject            (B := copy of A with changes)
-  base / clr                   remember the tables / restore them, A := fresh A, B := []
+  numsch int|float MIN|_ MAX|_ T|F T|F i:N|f:Q|b:T|F   -> x | i:N | f:Q     All(Coerce(T), Range(min, max, min_included, max_included))
+  base / clr                   remember the tables and the application's definitions / restore them, A := fresh, B := []
+  revert NAME                  Setting.revertToDefault on A
+  chdef NAME RAW               -> ok | invalid | nonexistent   Setting.changeDefault on A (default moves even when refused)
+  dup                          B := copy of A through __setstate__ (deepcopy / duplicate / pickle)
+  swap                         exchange A and B
+  isdef NAME                   -> T | F | none    value == default on A
   push / pop                   save / restore A
   setB/getB/offB/namesB        as above on B
 -/
@@ -42,6 +48,8 @@ structure St where
   baseStp : List (Nat × Nat) := []
   baseStpv : List (Nat × Nat) := []
   saved : Reg Nat := []
+  /-- the application's definitions (registry at `base` time): what `__setstate__` rebuilds a copy from -/
+  app : Reg Nat := []
 
 def St.schema (s : St) : String → Nat → Option Nat := fun n v =>
   match s.sch.find? (fun p => p.1.1 == n && p.1.2 == v) with
@@ -86,9 +94,16 @@ def renamer (s : St) : Option Renames := mkRenamer s.today s.olds ⟨[], []⟩
 
 def step (s : St) : List String → St × String
   | ["new"] => ({}, "ok")
-  | ["base"] => ({ s with baseSch := s.sch, baseDmp := s.dmp, baseStp := s.stp, baseStpv := s.stpv }, "ok")
+  | ["base"] => ({ s with baseSch := s.sch, baseDmp := s.dmp, baseStp := s.stp, baseStpv := s.stpv, app := fresh s.a }, "ok")
   | ["clr"] => ({ s with sch := s.baseSch, dmp := s.baseDmp, stp := s.baseStp, stpv := s.baseStpv,
-                         a := fresh s.a, b := [] }, "ok")
+                         a := if s.app.isEmpty then fresh s.a else s.app, b := [] }, "ok")
+  | ["revert", n] => ({ s with a := revert s.a n }, "ok")
+  | ["chdef", n, raw] => match raw.toNat? with
+      | some raw => let r := changeDefault s.schema s.a n raw; ({ s with a := r.1 }, showStatus r.2)
+      | none => (s, "bad-op")
+  | ["dup"] => ({ s with b := copyReg (if s.app.isEmpty then fresh s.a else s.app) s.a }, "ok")
+  | ["swap"] => ({ s with a := s.b, b := s.a }, "ok")
+  | ["isdef", n] => (s, match isDefault s.a n with | some b => showBool b | none => "none")
   | ["push"] => ({ s with saved := s.a }, "ok")
   | ["pop"] => ({ s with a := s.saved }, "ok")
   | ["def", n, d] => match d.toNat? with
@@ -140,8 +155,37 @@ def step (s : St) : List String → St × String
         ({ s with a := res.reg }, (if res.ok then "ok" else "reject") ++ " inv=" ++ showList id res.invalid)
       | some _, none => (s, "reject-renamer")
       | none, _ => (s, "bad-op")
+  | ["numlist", t, mn, mx, mi, xi, raws] =>
+      let t? : Option NumType := match t with | "int" => some .int | "float" => some .float | _ => none
+      let opt : String → Option (Option Rat) := fun x => if x = "_" then some none else (parseRat? x).map some
+      let raw? : String → Option RawNum := fun raw => match raw.splitOn ":" with
+        | ["i", v] => v.toInt?.map RawNum.int
+        | ["f", v] => (parseRat? v).map RawNum.float
+        | ["b", v] => (parseBool? v).map RawNum.bool
+        | _ => none
+      match t?, opt mn, opt mx, parseBool? mi, parseBool? xi, parseList? raw? raws with
+      | some t, some mn, some mx, some mi, some xi, some raws =>
+        (s, match numListSchema t ⟨mn, mx, mi, xi⟩ raws with
+          | none => "x"
+          | some vs => showList (fun v => match v with | .int i => "i:" ++ toString i | .float q => "f:" ++ showRat q) vs)
+      | _, _, _, _, _, _ => (s, "bad-op")
+  | ["numsch", t, mn, mx, mi, xi, raw] =>
+      let t? : Option NumType := match t with | "int" => some .int | "float" => some .float | _ => none
+      let opt : String → Option (Option Rat) := fun x => if x = "_" then some none else (parseRat? x).map some
+      let raw? : Option RawNum := match raw.splitOn ":" with
+        | ["i", v] => v.toInt?.map RawNum.int
+        | ["f", v] => (parseRat? v).map RawNum.float
+        | ["b", v] => (parseBool? v).map RawNum.bool
+        | _ => none
+      match t?, opt mn, opt mx, parseBool? mi, parseBool? xi, raw? with
+      | some t, some mn, some mx, some mi, some xi, some raw =>
+        (s, match numSchema t ⟨mn, mx, mi, xi⟩ raw with
+          | none => "x"
+          | some (.int i) => "i:" ++ toString i
+          | some (.float q) => "f:" ++ showRat q)
+      | _, _, _, _, _, _ => (s, "bad-op")
   | ["modified", news] => match parseList? parseNew? news with
-      | some news => match modifiedReg s.schema s.a news with
+      | some news => match modifiedReg s.schema (copyReg (if s.app.isEmpty then fresh s.a else s.app) s.a) news with
         | some r => ({ s with b := r }, "ok")
         | none => (s, "reject")
       | none => (s, "bad-op")
